@@ -135,14 +135,21 @@ theorem no_trace {s : Sys} {e : Emit} (h : e ∈ emits s) : visible s e.target =
 theorem no_trace_links {s : Sys} {e : Emit} (h : e ∈ emits s) (_ : e.linked = true) : visible s e.target = true :=
   no_trace h
 
-/-- **C12** a hidden object (or anything inside one) has no page file, no anchor, no search document
-and no inventory line -/
+/-- **C12** a hidden object (or anything inside one) has no page, no anchor, no search document and no
+inventory line. A file at its address exists in one case only: the address is index.html (it is the only
+root) and the project's `IndexPage` is written there (a09aa28) — a page that does not mention it. -/
 theorem no_trace_files {s : Sys} (w : WF s) {i : Nat} (hi : i < s.n) (hv : visible s i = false) :
-    pageFile s i ∉ written s ∧ (∀ p, i ∉ methods s p) ∧ i ∉ searchDocs s ∧ i ∉ inventory s := by
-  refine ⟨?_, ?_, ?_, ?_⟩
-  · intro h
-    have := visible_of_mem_pages (pageFile_written w hi h)
+    i ∉ pages s ∧ (pageFile s i ∈ written s → pageFile s i = .index ∧ hasIndexPage s = true) ∧
+      (∀ p, i ∉ methods s p) ∧ i ∉ searchDocs s ∧ i ∉ inventory s := by
+  have hnp : i ∉ pages s := by
+    intro h
+    have := visible_of_mem_pages h
     rw [hv] at this; cases this
+  refine ⟨hnp, ?_, ?_, ?_, ?_⟩
+  · intro h
+    rcases pageFile_written w hi h with h | h
+    · exact absurd h hnp
+    · exact h
   · intro p h
     have := (mem_methods.mp h).2.2
     rw [hv] at this; cases this
